@@ -28,7 +28,7 @@ class C09(Check):
                   "(no deadlock); the unprotected variants are refuted by concrete schedules. That the bodies of stdout_mt::sink and "
                   "StdErrThreaded::sink have this shape is re-read from /repo by a translator on every run and re-checked "
                   "(Tie_C09.v, 8 obligations + 8 instantiated theorems). Real threads are SAMPLED, not enumerated: the C++ driver "
-                  "logs from 2-8 threads through two logger types per sink into a trapping stream buffer and parses the output back")
+                  "logs from 2-32 threads through two logger types per sink into a trapping stream buffer and parses the output back")
     level_note = ("trusted: Coq kernel, extraction, OCaml, the translator gen/tr_sinks.py (reads statement kinds/order/nesting and the "
                   "storage of the mutex from clang's AST), the C++ driver and its parser; assumed, not proved: std::mutex / lock_guard / "
                   "unique_lock / scoped_lock give mutual exclusion and unlock at scope exit, `stream << std::string` is one xsputn call "
@@ -38,9 +38,10 @@ class C09(Check):
                   "of every record, and the ThreadSanitizer build watches the formatting path. The universal statement is about the model; the "
                   "implementation runs are a sample of real interleavings (schedule perturbation by yields and a dwell inside the "
                   "buffer), never all of them")
-    rule = ("cases = (sink out|err) x (2..8 threads, per-thread record counts) x (payload length distribution z=0, s<=16, m<=256, "
+    rule = ("cases = (sink out|err) x (2..32 threads, per-thread record counts) x (payload length distribution z=0, s<=16, m<=256, "
             "l=1024..4096, x=extremes) x (mode n plain, y yield between bytes, d dwell inside the buffer) x seed: a small grid with the "
             "observed order attached (judged by the extracted valid_orderb), high-contention cases, uneven cases (idle threads), "
+            "many-thread cases (9, 12, 16, 24, 32 threads, more than the cores, piling up on the sink mutex), "
             "`same` cases (all threads on ONE logger type and severity, one-expression statements with nine streamed items, up to "
             "8000 (quick) / 20000 (thorough) records per thread), corpus; a batch of each kind also on a ThreadSanitizer build (larger in the thorough tier). "
             "In every case each record's content (thread, seq, length, checksum, payload) is compared with the expected bytes. A case is non-trivial when at least two threads log "
@@ -107,6 +108,17 @@ class C09(Check):
                         yield "%s %s %s n %d same" % (sink, csv(counts), dist, rng.randint(0, 99999)), "same-logger-volume"
                 yield "%s %s s y %d same" % (sink, csv([1500] * 4), rng.randint(0, 99999)), "same-logger-volume"
                 yield "%s %s s d %d ord same" % (sink, csv([rng.randint(2, 9) for _ in range(3)]), rng.randint(0, 99999)), "same-logger-volume"
+        # (iv-b) more threads than the 2..8 of the grids (and than the 16 cores): 9..32 threads pile up on the sink's mutex,
+        #        so many threads are inside logger::log() at once — aimed at anything that counts or limits concurrent callers
+        for rep in range(1 if quick else 4):
+            for sink in sinks:
+                for n in (9, 12, 16, 24, 32):
+                    per = rng.randint(80, 200)
+                    yield "%s %s %s y %d same" % (sink, csv([per] * n), rng.choice("ml"), rng.randint(0, 99999)), "many-threads"
+                    yield "%s %s %s %s %d" % (sink, csv([rng.randint(40, 120) for _ in range(n)]), rng.choice("sml"), rng.choice("ny"), rng.randint(0, 99999)), "many-threads"
+                for n in (9, 16, 32):
+                    yield "%s %s m y %d same tsan" % (sink, csv([rng.randint(40, 100)] * n), rng.randint(0, 99999)), "tsan-many-threads"
+                yield "%s %s s n %d tsan" % (sink, csv([60] * 24), rng.randint(0, 99999)), "tsan-many-threads"
         # (v) a batch on the ThreadSanitizer build in the quick tier as well (volumes kept small: a racy tree makes
         #     TSan report on every access)
         if quick:
